@@ -29,7 +29,9 @@ META = dict(
          "guardedWriter check-then-send, all drain loops); TLC explores every interleaving of every scenario of the "
          "configured families (<= 3 items, <= 2 workers) and checks: result in Outcomes, exactly-once, bounded workers, "
          "every run comes to rest with every goroutine finished (nothing blocked for ever, the call returns) - for the "
-         "code as it is (where TLC exhibits the blocked states) and for the three proposed repairs. TLC then enumerates "
+         "code under test (Repairs {panicbuf, deadline} = /repo commits ea11f3e + c6d89a0; only the known send-on-closed-"
+         "output behaviour tolerated); the model of the code before those commits is kept as an expected-violation run "
+         "(TLC exhibits the blocked state of the fixed leak) and the model with the third repair as a lead. TLC then enumerates "
          "the scenarios with their outcome sets as JSON; the Go driver acts each scenario out through mr.MapReduce / "
          "MapReduceVoid / MapReduceChan / ForEach / Finish / FinishVoid with instrumented user functions, repeatedly, "
          "under -race with GOMAXPROCS 16/2/1 and seeded random yields, and checks membership of the result, the "
@@ -51,14 +53,14 @@ META = dict(
          "ever, a MapReduceChan source that is never closed, more than two reducer writes, nested MapReduce calls. The "
          "design's MRTrace (MRPipeline with silent channel steps) is replaced by the cheaper contract-level acceptor. On "
          "a tree with a defect, scenarios of a signature that already failed VERIF_FAILCAP times in a driver process are "
-         "skipped (nothing is skipped on a conforming tree). Findings on the unchanged tree, all reproduced on the real "
-         "code: blocking onceChan.write (mapreduce.go:352) leaves goroutines for ever when a panic follows a return "
-         "through cancel / context / result (keys C07:leak:panic-after-{cancel,ctx,result,panic}-return) and makes the "
-         "call hang when the panic comes after the caller accepted the reducer's value or while the caller itself runs "
-         "cancel (keys C07:hang:panic-after-output-accepted, C07:hang:panic-while-caller-cancels); finish() closes "
-         "`output` while the reducer may be sending (race detector report C07:data-race:guardedWriter.Write+"
-         "mapReduceWithPanicChan.func2.1, rarely visible as C07:result:send-on-closed-output); with a done context the "
-         "select may return ErrReduceNoOutput/nil (C07:result:no-output-instead-of-deadline).",
+         "skipped (nothing is skipped on a conforming tree). Findings, all reproduced on the real code. Fixed by ea11f3e: "
+         "blocking onceChan.write left goroutines for ever when a panic followed a return through cancel / context / "
+         "result (keys C07:leak:panic-after-{cancel,ctx,result,panic}-return) and made the call hang when the panic came "
+         "after the caller accepted the reducer's value or while the caller itself ran cancel (C07:hang:panic-after-output-"
+         "accepted, C07:hang:panic-while-caller-cancels). Fixed by c6d89a0: with a done context the select could return "
+         "ErrReduceNoOutput/nil (C07:result:no-output-instead-of-deadline). Open known finding: finish() closes `output` "
+         "while the reducer may be sending (race detector report C07:data-race:guardedWriter.Write+"
+         "mapReduceWithPanicChan.func2.1, rarely visible as C07:result:send-on-closed-output).",
     technique="TLA+ contract (outcome sets) + TLC model checking of the channel-level mechanism model + TLC-enumerated "
               "scenarios replayed black-box on the real entry points under -race with goroutine-snapshot leak/hang proofs "
               "+ TLC validation of recorded user-level histories",
@@ -84,7 +86,6 @@ def fams(*fs):
 
 # ------------------------------------------------------------------------------------------- model checking
 INV_REPAIRED = ["ResultOK", "Bounded", "AtMostOnce", "ExactlyOnce", "ExactlyOnceAtReturn", "LeakFree"]
-INV_ASIS = ["ResultOKAsIs", "Bounded", "AtMostOnce", "ExactlyOnce", "ExactlyOnceAtReturn", "LeakOnlyByPanicWrite"]
 
 NOCAUSE = dict(MBSet='{"w0","w1","w2"}', RStopSet="{-1,1}", RWSet="0..2", REndSet='{"ret"}', GenKSet="{-1}", CtxSet='{"bg"}')
 CAUSES = dict(MBSet='{"w1","cancelE","cancelNil","panic"}', RStopSet="{-1,0}", RWSet="0..1",
@@ -106,16 +107,17 @@ def pipeline(ctx, name, families, repairs, tolerate, invs, expect=None, properti
     r = ctx.tlc("MRPipeline", cfg, constants=K, name=name, workers=6, timeout=timeout, heap="6g",
                 allow_violation=expect is not None, want_json=False, coverage=coverage)
     if expect is not None and r.violated != expect:
-        raise core.Infra("MRPipeline %s: expected TLC to report %s violated (the model of the code as it is must show "
+        raise core.Infra("MRPipeline %s: expected TLC to report %s violated (the model of the code before the fixes must show "
                          "the blocked state), got %s" % (name, expect, r.violated))
     return r
 
 
 def mc(ctx):
     quick = ctx.quick
-    # (a) the code as it is shows the blocked state suspected in DESIGN.md section 9
-    pipeline(ctx, "asis-suspect", fams(fam(**SUSPECT)), "{}", '{"rt","noout"}', ["LeakFree"], expect="LeakFree")
-    out = open(os.path.join(ctx.build, "tlc-asis-suspect", "tlc.out"), errors="replace").read()
+    # (a) recorded lead for the defects fixed by /repo commits ea11f3e + c6d89a0: the model of the code BEFORE those
+    #     commits (Repairs = {}) must still exhibit the blocked state of DESIGN.md section 9 (expected violation)
+    pipeline(ctx, "prefix-suspect", fams(fam(**SUSPECT)), "{}", '{"rt","noout"}', ["LeakFree"], expect="LeakFree")
+    out = open(os.path.join(ctx.build, "tlc-prefix-suspect", "tlc.out"), errors="replace").read()
     out = out[out.find("Error:"):]
     states = out.split("\nState ")
     last = re.sub(r"\s+", " ", states[-1]) if len(states) > 1 else ""
@@ -124,57 +126,52 @@ def mc(ctx):
     m_res = re.search(r"result = (\[[^\]]*\])", last)
     m_sc = re.search(r"scenario = (\[[^\]]*\])", last)
     lines = sorted(int(x) for x in re.findall(r"-?\d+", m_lines.group(1))) if m_lines else []
-    ctx.notes["model_blocked_state_as_is"] = dict(
+    ctx.notes["model_blocked_state_before_fix"] = dict(
         scenario=m_sc.group(1) if m_sc else None, caller_result=m_res.group(1) if m_res else None,
-        blocked_processes=m_at.group(1) if m_at else None, mapreduce_go_lines=lines, trace_steps=len(states) - 1,
-        meaning="TLC counterexample to LeakFree on the model of the code as it is: a state with no enabled step in which the "
-                "caller has returned and these processes are blocked for ever (m_pw = onceChan.write's send :352, d_wait = "
-                "wg.Wait :259, r_recv = the reducer reading the pipe :221)")
+        blocked_processes=m_at.group(1) if m_at else None, mapreduce_go_lines_before_ea11f3e=lines, trace_steps=len(states) - 1,
+        meaning="lead, not a verdict: TLC counterexample to LeakFree on the model of mapreduce.go as it was before commit "
+                "ea11f3e (Repairs = {}): a state with no enabled step in which the caller has returned and these processes are "
+                "blocked for ever (m_pw = onceChan.write's send :352, d_wait = wg.Wait :259, r_recv = the reducer reading the "
+                "pipe :221); the driver reproduced exactly these three stacks on that tree (key C07:leak:panic-after-cancel-"
+                "return, fixed)")
     if not lines:
         raise core.Infra("could not read the blocked state from TLC's counterexample")
     if quick:
         late_q = dict(LATE, NSet="{2}", WSet="{2}", RStopSet="{-1}", RWSet="{1}", REndSet='{"ret"}')
-        asis = fams(fam(**NOCAUSE, NSet="0..2"), fam(**CAUSES, NSet="0..1"), fam(**late_q))
-        rep12 = None
-        rep = fams(fam(**CAUSES, NSet="0..1"), fam(**late_q), fam(**FOREACH, NSet="0..2"), fam(**CTXF, NSet="0..1"))
-        small = fams(fam(NSet="0..1", WSet="{1}", MBSet='{"w1","panic"}', RStopSet="{-1,0}", RWSet="{1}",
+        cur = fams(fam(**NOCAUSE, NSet="0..2"), fam(**CAUSES, NSet="0..1"), fam(**late_q), fam(**FOREACH, NSet="0..2"),
+                   fam(**CTXF, NSet="0..1"))
+        full = None
+        small = fams(fam(NSet="0..1", WSet="{1}", MBSet='{"w1","cancelE","panic"}', RStopSet="{-1,0}", RWSet="{1}",
                          REndSet='{"ret","panic"}', GenKSet="{-1,0}", CtxSet='{"bg","during"}'))
     else:
-        asis = fams(fam(**NOCAUSE, NSet="0..3"), fam(**CAUSES), fam(**LATE), fam(**FOREACH, NSet="0..3"))
-        rep12 = fams(fam(**CAUSES))
-        rep = fams(fam(**CAUSES), fam(**LATE), fam(**FOREACH, NSet="0..3"), fam(**dict(CTXF, GenKSet="{-1}")),
-                   fam(**dict(CTXF, NSet="0..1", RWSet="0..2")), fam(**NOCAUSE, NSet="0..2"))
+        cur = fams(fam(**NOCAUSE, NSet="0..3"), fam(**CAUSES), fam(**LATE), fam(**FOREACH, NSet="0..3"),
+                   fam(**dict(CTXF, GenKSet="{-1}")), fam(**dict(CTXF, NSet="0..1", RWSet="0..2")))
+        full = fams(fam(**CAUSES), fam(**LATE), fam(**FOREACH, NSet="0..3"), fam(**dict(CTXF, GenKSet="{-1}")),
+                    fam(**dict(CTXF, NSet="0..1", RWSet="0..2")), fam(**NOCAUSE, NSet="0..2"))
         small = fams(fam(NSet="0..1", WSet="{1}", MBSet='{"w1","cancelE","panic"}', RStopSet="{-1,0}", RWSet="0..1",
                          REndSet='{"ret","panic"}', GenKSet="{-1,0}", CtxSet='{"bg","during"}'))
-    # (b) the code as it is: everything except what a blocked onceChan.write explains
-    pipeline(ctx, "asis", asis, "{}", '{"rt","noout"}', INV_ASIS)
-    # (c) the proposed repairs.  1+2 (panic channel, deadline): nothing blocks, every result allowed except the
-    #     send-on-closed-output lead; 1+2+3 (output closed by its only sender): nothing tolerated at all
-    if rep12:
-        pipeline(ctx, "repaired-1-2", rep12, P12, '{"rt"}', INV_REPAIRED)
-    pipeline(ctx, "repaired-1-2-3", rep, ALL3, "{}", INV_REPAIRED + ["NoSendOnClosed"])
-    # (d) every behaviour comes to rest (weak fairness), small family, with action coverage as vacuity guard
-    r = pipeline(ctx, "repaired-termination", small, ALL3, "{}", ["ResultOK"], properties=["Termination"], spec="FairSpec", coverage=True)
+    # (b) the code under test = Repairs {panicbuf, deadline} (commits ea11f3e, c6d89a0): full invariant set; the only
+    #     tolerated behaviour is the open known finding send-on-closed-output (Tolerate = {rt})
+    pipeline(ctx, "current", cur, P12, '{"rt"}', INV_REPAIRED)
+    # (c) ... every behaviour comes to rest (weak fairness), small family, with per-action coverage as vacuity guard
+    r = pipeline(ctx, "current-termination", small, P12, '{"rt"}', ["ResultOK"], properties=["Termination"], spec="FairSpec", coverage=True)
     ctx.check_coverage(r, ["CtxFire", "GenEnd", "GenClose", "SrcHandoff", "SrcClosedRecv", "PwBuffered", "CallerTakePanic",
                            "PrioEmpty", "CallerCtx", "CallerCtxRet", "OutHandoff", "OutClosedRecv", "CallerEval", "XOnce",
-                           "XSet", "XRet", "FOnce", "FCloseDone", "RCloseOut", "CallerSeesDone", "WriteAbandon", "DLoop", "DSelect",
-                           "DWait", "DCloseColl", "MWChk", "MWSend", "MFail", "MExit", "MUnpool", "RRecv", "RWChk", "REnd",
-                           "RDefer", "RFinish"])
-    if not quick:
-        r = pipeline(ctx, "asis-termination", small, "{}", '{"rt","noout"}', ["ResultOKAsIs"], properties=["Termination"],
-                     spec="FairSpec", coverage=True)
-        ctx.check_coverage(r, ["Cas", "CallerRecvPanic", "RSendClosed", "FCloseOut"])
+                           "XSet", "XRet", "FOnce", "FCloseDone", "FCloseOut", "DLoop", "DSelect", "DWait", "DCloseColl",
+                           "MWChk", "MWSend", "MFail", "MExit", "MUnpool", "RRecv", "RWChk", "RSendClosed", "REnd", "RDefer",
+                           "RFinish"])
+    # (d) lead: what a full repair looks like - with "outclose" added nothing at all needs to be tolerated (thorough only)
+    if full:
+        pipeline(ctx, "lead-full-repair", full, ALL3, "{}", INV_REPAIRED + ["NoSendOnClosed"])
     ctx.notes["model_leads"] = [
-        "send-on-closed-output: finish() (from cancel or the caller's ctx branch) closes `output` between the reducer's "
-        "guardedWriter check and its send; the runtime error is recovered in the reducer goroutine, written to panicChan and "
-        "may be re-raised in the caller; the race detector reports the same close-versus-send (tolerated in ResultOK as "
-        "Tolerate={rt} for the code as it is and for repairs 1+2; removed by repair 'outclose')",
-        "no-output-instead-of-deadline: with a done context the reducer's write is dropped, finish() closes output and the "
-        "caller's select may take output instead of ctx.Done(): ErrReduceNoOutput/nil instead of DeadlineExceeded (removed by "
-        "repair 'deadline'; tolerated as Tolerate={noout} on the model of the code as it is)",
-        "two panics race (code as it is): the loser of onceChan's CAS carries on as if delivered; the caller's select may take "
-        "output while the winner is offering its panic, the winner then stays blocked (excused in ResultOKAsIs / "
-        "LeakOnlyByPanicWrite; removed by repair 'panicbuf')"]
+        "open (known finding): send-on-closed-output - finish() (from cancel or the caller's ctx branch) closes `output` between "
+        "the reducer's guardedWriter check and its send; the runtime error is recovered in the reducer goroutine, written to "
+        "panicChan and may be re-raised in the caller; the race detector reports the same close-versus-send (tolerated in "
+        "ResultOK as Tolerate={rt}; removed in the model by repair 'outclose', /tmp/fixes/C07-3.patch, not taken)",
+        "fixed by c6d89a0: no-output-instead-of-deadline (select took the closed output although the context was done)",
+        "fixed by ea11f3e: blocking onceChan.write (leaks after a return through cancel/context/result, hangs when the panic "
+        "came after the caller accepted the reducer's value or while the caller ran cancel; two racing panics could let a "
+        "normal result through)"]
 
 
 # ------------------------------------------------------------------------------------------- scenario generation
@@ -257,8 +254,9 @@ def run(ctx):
         for k in ("result.ret", "result.err", "result.panic", "leakchecks", "exactly_once_checks", "maxrunning_2"):
             if tot(k) == 0:
                 raise core.Infra("vacuous driver run: counter %s is 0" % k)
-    # does the real code show the blocked state the model of the code-as-it-is shows?
-    want = ctx.notes.get("model_blocked_state_as_is", {}).get("mapreduce_go_lines")
+    # only on a tree that (again) has the pre-fix leak: do the real stacks show the blocked state of lead (a)?
+    # (the leak itself is then a violation reported by the driver; this is an additional note, never an error)
+    want = ctx.notes.get("model_blocked_state_before_fix", {}).get("mapreduce_go_lines_before_ea11f3e")
     for d in ctx.disagreements:
         if d["key"] == "C07:leak:panic-after-cancel-return" and "mb=[cancelE latepanic]" in d["msg"] and "MapReduce n=2 workers=2" in d["msg"]:
             got = sorted(set(int(x) for x in re.findall(r"mapreduce\.go:(\d+)", d["msg"].split("\n")[0])))
